@@ -199,7 +199,7 @@ impl<T> Script<T> {
         let n = self.calls.get() + 1;
         self.calls.set(n);
         if self.panic_at == n {
-            panic!("vrt: armed iterator panic at callback {}", n);
+            vrt::arena::suspend(|| panic!("vrt: armed iterator panic at callback {}", n));
         }
     }
     fn reported(&self) -> usize {
